@@ -111,6 +111,8 @@ pub fn literals() -> Vec<Value> {
     v.push(json!([{"log": "LEAK"}, {"var": "s"}]));
     v.push(json!({"": 1}));
     v.push(json!({"": {"log": "LEAK"}}));
+    // strings that spell rules, arrays, objects: a string is a string
+    v.extend(al::stringified());
     al::dedup(v)
 }
 
@@ -297,6 +299,22 @@ pub fn run(ctx: &mut Ctx) {
                     &o2,
                     if o2.ok() == Some(&r) && !legit { Some(("an evaluated result or an error (the key is an operator name)".into(), o2.show())) } else { None },
                 );
+            }
+        }
+    }
+    // dispatch side at large operand counts (8- and 16-bit count boundaries included): the operator is
+    // still found and still sees every operand
+    {
+        let mut counts = al::size_classes(ctx.tier_thorough);
+        counts.extend([258usize, 511, 512, 513, 65535, 65536, 65537]);
+        for n in counts {
+            if !ctx.mine() {
+                continue;
+            }
+            for k in OPS {
+                ctx.edge();
+                let r = op(k, crate::spaces::c03::benign(k, n));
+                ctx.check("dispatch:size-probe", &r, &ds[2]);
             }
         }
     }
